@@ -4,6 +4,7 @@ import (
 	"dirkcheck/internal/an"
 	"dirkcheck/internal/prog"
 	"go/constant"
+	"go/types"
 
 	"golang.org/x/tools/go/ssa"
 )
@@ -159,12 +160,28 @@ func (c *Ctx) WithSummariesFrom(base Subst, pred AtomPred) func(b *ssa.BasicBloc
 		if a.Op != "true" && a.Op != "false" {
 			return false
 		}
+		ridx := 0
 		call, ok := s.Res(a.LV).(*ssa.Call)
 		if !ok {
-			return false
+			// a boolean component of a tuple result: (value, ok) := helper(...)
+			ex, isEx := s.Res(a.LV).(*ssa.Extract)
+			if !isEx {
+				return false
+			}
+			c2, isCall := ex.Tuple.(*ssa.Call)
+			if !isCall {
+				return false
+			}
+			call, ridx = c2, ex.Index
 		}
 		f := call.Call.StaticCallee()
-		if f == nil || !prog.InModule(f) || f.Blocks == nil || f.Signature.Results().Len() != 1 {
+		if f == nil || !prog.InModule(f) || f.Blocks == nil || call.Call.IsInvoke() || ridx >= f.Signature.Results().Len() {
+			return false
+		}
+		if _, isTuple := s.Res(a.LV).(*ssa.Extract); !isTuple && f.Signature.Results().Len() != 1 {
+			return false
+		}
+		if b, isB := f.Signature.Results().At(ridx).Type().Underlying().(*types.Basic); !isB || b.Kind() != types.Bool {
 			return false
 		}
 		want := a.Op == "true"
@@ -180,7 +197,10 @@ func (c *Ctx) WithSummariesFrom(base Subst, pred AtomPred) func(b *ssa.BasicBloc
 		accept := func(b *ssa.BasicBlock, i int, e *an.Atom) bool { return judge(e, ns, depth+1) }
 		any := false
 		for _, ret := range an.Returns(f) {
-			v := an.Result(ret, 0)
+			if ridx >= len(ret.Results) {
+				return false
+			}
+			v := an.Result(ret, ridx)
 			type cand struct {
 				v    ssa.Value
 				site ssa.Instruction
